@@ -8,11 +8,11 @@ package simkit
 // splitmix64 stream and are recorded; in replay mode they come from the
 // recorded slice and an exhausted tape yields zeros ("the boring choice").
 type Tape struct {
-	words  []uint32
-	pos    int
-	gen    bool
-	state  uint64
-	limit  int // generate mode: after limit words, zeros
+	words   []uint32
+	pos     int
+	gen     bool
+	state   uint64
+	limit   int // generate mode: after limit words, zeros
 	NonZero int // consumed non-zero choices (after mod)
 }
 
